@@ -148,6 +148,19 @@ fn expand_single_relspec(value: &str, ctx: &impl ElementMap) -> String {
     value.to_string()
 }
 
+/// '--' may not appear within an XML comment: space apart every run of dashes
+/// (used for comments svgdx itself generates from arbitrary text).
+pub(crate) fn comment_safe(text: &str) -> String {
+    let mut out = String::with_capacity(text.len());
+    for ch in text.chars() {
+        if ch == '-' && out.ends_with('-') {
+            out.push(' ');
+        }
+        out.push(ch);
+    }
+    out
+}
+
 /// XML comments cannot contain '--'; reject rather than emit malformed output.
 fn check_comment_text(text: &str) -> Result<()> {
     if text.contains("--") {
@@ -268,13 +281,11 @@ impl SvgElement {
             //
             // Replace double quote with backtick to avoid messy XML entity conversion
             // (i.e. &quot; or &apos; if single quotes were used)
-            events.push(OutputEvent::Comment(
-                format!(" {} ", self.original)
+            events.push(OutputEvent::Comment(comment_safe(
+                &format!(" {} ", self.original)
                     .replace('"', "`")
-                    .replace(['<', '>'], "")
-                    // '--' may not appear within an XML comment
-                    .replace("--", "- -"),
-            ));
+                    .replace(['<', '>'], ""),
+            )));
             events.push(OutputEvent::Text(format!("\n{}", " ".repeat(self.indent))));
         }
 
